@@ -75,6 +75,7 @@ type VC struct {
 	retSeen      map[string]int
 	lemmaPkg     *types.Package
 	preparing    bool
+	warnings     []string
 	pendingGhostInit bool
 	ghostT       map[string]*GT
 	ghostScalar  map[string]types.Type
